@@ -155,7 +155,16 @@ func analyseGenTableCells(c *Ctx, f *FuncRef) genTableCells {
 			for _, bs := range body.List {
 				if as, ok := bs.(*ast.AssignStmt); ok && len(as.Lhs) == 1 && len(as.Rhs) == 1 && as.Tok == token.ASSIGN {
 					if ix, ok := as.Lhs[0].(*ast.IndexExpr); ok && exprString(ix.X) == rowName && identObj(info, ix.Index) == idx {
-						if call, ok := as.Rhs[0].(*ast.CallExpr); ok && strings.HasSuffix(shortFuncName(callee(info, call)), "LALR1).GenErrorCode") {
+						rhs := unparen(as.Rhs[0])
+						// a local with a single definition stands for its defining expression
+						if o := identObj(info, rhs); o != nil {
+							defs := newDefs(info)
+							defs.scan(f.Decl.Body)
+							if defs.count[o] == 1 && defs.single[o] != nil {
+								rhs = unparen(defs.single[o])
+							}
+						}
+						if call, ok := rhs.(*ast.CallExpr); ok && strings.HasSuffix(shortFuncName(callee(info, call)), "LALR1).GenErrorCode") {
 							res.prefillIsErrorCode = true
 						}
 					}
